@@ -76,6 +76,10 @@ class MacroVisitor(ExplorerScriptVisitor):
     def visitMacrodef_children(self, macrodef_handler: MacroDefCompileHandler) -> ExplorerScriptMacro:
         """Visit the children of the macro def, after the macro resolution order has been processed"""
         self._root_handler = macrodef_handler
+        # Every macro gets its own source map: the opcodes and position marks of the other macros of the file
+        # are not part of it.
+        self.source_map_builder = SourceMapBuilder()
+        self.compiler_ctx.source_map_builder = self.source_map_builder
         self.visitChildren(macrodef_handler.ctx)
 
         blueprints = self._root_handler.collect()
